@@ -524,6 +524,10 @@ fn execute(sc: &Scenario, out: &mut Outcome) {
     out.nontrivial = matches!(&obs.result, Some(Ok(_)) | Some(Err(RecvErr::Closed(_))));
 
     // 1. panics are violations in every class
+    // (the one excused panic — `write_all(..).expect("Failed to send response")` when the peer went away — stays excused
+    // here as everywhere, also after input that never was a complete message: the tree itself answers a head cut short by
+    // a connection error other than ECONNRESET with a 500, and panics in `send` on the dead connection; see DESIGN.md 7.1,
+    // candidate s, and the note on the seeded change C02-8 in 8.2)
     let panics = rt::panicked_tasks();
     if let Some((_, _, file, _, msg)) = panics.first() {
         out.violate("no-panic", rt::panic_site(file, msg), format!("{class_name}/{kind}: a server task panicked at {file}: {msg}; client saw {outcome_kind}; input={shown}"));
